@@ -205,7 +205,7 @@ func specs() []string {
 		}
 		return s
 	}
-	return []string{"3:0:v0.0.1", "6:1:v0.1.0", "11:2:v0.2.0-pre"}
+	return []string{"3:0:v0.0.1", "6:1:v0.1.0-RC.1", "11:2:v0.2.0-pre"}
 }
 
 // TestCrashPoints enumerates every crash point (effect syscall, N-th call) of a
@@ -286,8 +286,8 @@ func runConc(c ConcCase) (res evid.Result) {
 			defer wg.Done()
 			spec := c.Spec
 			if i < len(c.Other) && c.Other[i] {
-				spec = strings.Replace(spec, ":v0.", ":v1.", 1)
-				spec = "4:1:v0.9.9"
+				// a sibling version whose name has the base version as a prefix (same module, same cache directory)
+				spec = c.Spec + []string{"0", "-rc.1", "-RC.2"}[i%3]
 			}
 			args := []string{cache, "fetch", spec, fmt.Sprint(c.Gor)}
 			cmd := exec.Command(fetcher(), args...)
@@ -328,13 +328,13 @@ func runConc(c ConcCase) (res evid.Result) {
 func TestConcurrent(t *testing.T) {
 	evid.Main(t, evid.Check[ConcCase]{Name: "concurrent", Gen: func(t *rapid.T) ConcCase {
 		c := ConcCase{
-			Spec:  rapid.SampledFrom([]string{"3:0:v0.0.1", "6:1:v0.1.0", "9:2:v0.2.0"}).Draw(t, "spec"),
+			Spec:  rapid.SampledFrom([]string{"3:0:v0.0.1", "6:1:v0.1.1", "9:2:v0.2.1"}).Draw(t, "spec"),
 			Procs: rapid.IntRange(2, 4).Draw(t, "procs"),
 			Gor:   rapid.SampledFrom([]int{1, 1, 4}).Draw(t, "gor"),
 		}
 		for i := 0; i < c.Procs; i++ {
-			c.Delays = append(c.Delays, rapid.SampledFrom([]int{0, 0, 200, 1000, 3000}).Draw(t, "delay"))
-			c.Other = append(c.Other, rapid.IntRange(0, 4).Draw(t, "other") == 0)
+			c.Delays = append(c.Delays, rapid.SampledFrom([]int{0, 0, 200, 1000, 3000, 20000, 50000}).Draw(t, "delay"))
+			c.Other = append(c.Other, rapid.IntRange(0, 2).Draw(t, "other") == 0)
 		}
 		if rapid.IntRange(0, 2).Draw(t, "kill") == 0 {
 			c.Kill = &Point{Syscall: rapid.SampledFrom([]string{"openat", "mkdirat", "write", "renameat", "fchmodat"}).Draw(t, "ksys"), When: rapid.IntRange(1, 40).Draw(t, "kwhen")}
